@@ -164,6 +164,25 @@ finding(
     "P67", ["C14"], "fixed", "function/class parser given a LIVE object: a plain class annotation is stringified as \"<class 'int'>\" (not a type expression); builtin generics / unions lose leading characters ('uple[int, ...]', ' | None')", "eca0f79",
     witnesses={"C14": [{"feat": ["emitted"], "kind": "live", "names": ["a"], "obj": "function", "src": "def foo(*, a: int=None):\n    \"\"\"        :param a: alpha\"\"\"\n"}]},
 )
+finding(
+    "P65", ["C07"], "fixed", "doctrans on a def/class with a comment between the header's colon and the docstring (`def f(a):  # noqa` or a comment line): the docstring is not recognised, the converted one is inserted in front of it with indentation taken from the comment (two docstrings / invalid Python)", "ab3043f",
+    witnesses={"C07": [
+        {"cli": False, "feat": ["comment-after-header", "doc:rest"], "runs": [["rest", True, None]], "src": "def f(a): # c\n    \"\"\"\n    Foo.\n\n    :param a: the a\n    :type a: ```int```\n    \"\"\"\n    return a\n"},
+        {"cli": False, "feat": ["comment-before-docstring", "doc:rest"], "runs": [["google", True, None]], "src": "def f(a):\n    # c\n    \"\"\"\n    Foo.\n\n    :param a: the a\n    :type a: ```int```\n    \"\"\"\n    return a\n"},
+        {"cli": False, "feat": ["comment-after-header", "doc:none"], "runs": [["rest", False, None]], "src": "def a():  # noqa: E501\n    a = 0  # c0\n    return 0\n"},
+    ]},
+)
+finding(
+    "P68", ["C07"], "open", "doctrans on a DECORATED def whose header line carries a trailing comment (`@deco` / `def x():  # c`): the CST scanner splits the following docstring into plain lines, so the converted docstring is added in front of the old one",
+    witnesses={"C07": [{"cli": False, "feat": ["decorated", "comment-after-header", "hazard:P68-decorated-def-with-header-comment", "doc:google"], "runs": [["numpydoc", False, None], ["google", True, None]], "src": "def j(a: str = 109):\n    @deco2\n    def x() -> int:  # type: ignore\n        \"\"\"\n          int:\n        \"\"\"\n"}]},
+)
+finding(
+    "P69", ["C07"], "fixed", "doctrans rewrites a def header by searching for '->' and ')': a '->' inside a default value / annotation (`sep: str='->'`, `-> Literal[':', '->']`) truncates the header (invalid Python) when annotations are removed", "9babaaf",
+    witnesses={"C07": [
+        {"cli": False, "feat": ["has-default", "doc:rest"], "runs": [["rest", False, None]], "src": "def f(a: int, sep: str='->'):\n    \"\"\"\n    Foo.\n\n    :param a: the a\n    :type a: ```int```\n\n    :param sep: the sep\n    :type sep: ```str```\n    \"\"\"\n    return 1\n"},
+        {"cli": False, "feat": ["rich-return-annotation", "doc:none"], "runs": [["rest", False, None]], "src": "def lpt(v=-8, **kwargs) -> Literal[':', '->']:\n    return 1\n"},
+    ]},
+)
 finding("P26", ["C07"], "open", "doctrans drops comments inside a rewritten multi-line def header")
 finding("P27", ["C07"], "open", "doctrans turns a one-line `def f(a=1): return a` into invalid Python")
 finding("P28", ["C07"], "open", "doctrans does not recognise a raw docstring r\"\"\"...\"\"\": a second string is inserted")
